@@ -285,6 +285,7 @@ def prog_lookback(rng, **kw):
         ex["signal"] = {c: [rng.random() < 0.6 for _ in range(T)] for c in cols}
         if rng.random() < 0.4:
             ex["signal"]["__idx__"] = sorted(rng.sample(range(T), rng.randint(T // 2, T - 1)))
+        st.append(["SelectAll", {}])  # SelectWhere leaves the selection alone on dates its frame lacks
         st.append(["SelectWhere", {"signal": "signal"}])
     elif sel == "these":
         st.append(["SelectThese", {"tickers": rng.sample(cols, rng.randint(1, len(cols)))}])
@@ -294,9 +295,9 @@ def prog_lookback(rng, **kw):
     if wg == "equal":
         st.append(["WeighEqually", {}])
     elif wg == "invvol":
-        st.append(["WeighInvVol", {"lookback": rng.choice([3, 4, 6]), "lag": rng.choice([0, 1])}])
+        st.append(["WeighInvVol", {"lookback": rng.choice([5, 6]), "lag": rng.choice([0, 1])}])
     elif wg == "erc":
-        st.append(["WeighERC", {"lookback": rng.choice([4, 6]), "lag": rng.choice([0, 1])}])
+        st.append(["WeighERC", {"lookback": rng.choice([5, 6]), "lag": rng.choice([0, 1])}])
     elif wg == "target":
         rows = [wvec(rng, cols, "lattice") if rng.random() < 0.6 else None for _ in range(T)]
         ex["tw"] = {c: [None if r is None else r.get(c) for r in rows] for c in cols}
@@ -307,7 +308,7 @@ def prog_lookback(rng, **kw):
         st.append(["WeighTarget", {"weights": "tw"}])
     elif wg == "equal_tv":
         st.append(["WeighEqually", {}])
-        st.append(["TargetVol", {"vol": rng.choice([0.1, 0.2]), "lookback": rng.choice([3, 5]), "lag": rng.choice([0, 1])}])
+        st.append(["TargetVol", {"vol": rng.choice([0.1, 0.2]), "lookback": rng.choice([5, 6]), "lag": rng.choice([0, 1])}])  # >= 3 rows even across a weekend
     elif wg == "equal_ld":
         st.append(["WeighEqually", {}])
         st.append(["LimitDeltas", {"limit": rng.choice([0.1, 0.25])}])
